@@ -438,9 +438,9 @@ func GenStructTD(t *rapid.T, cfg *TDCfg, depth int) *TD {
 		case opt == 6 && cfg.wordIdx < len(optionWords):
 			// a field renamed to a word that is an option when it follows a comma (each word once per type, so that
 			// inline structs cannot collide)
-			f.T = GenTD(t, cfg, depth-1)
 			f.Tag = optionWords[cfg.wordIdx]
 			cfg.wordIdx++
+			f.T = GenTD(t, cfg, depth-1)
 		case opt == 4 && cfg.EmptyTag:
 			f.T = GenTD(t, cfg, depth-1)
 			f.Tag = ""
